@@ -28,7 +28,7 @@ def sched? : Sexp → Option (List Blk → Blk)
   | .atom "last" => some fun q => q.getLastD 0
   | _ => none
 
-def uncoveredSites : List (String × String × String) :=
+def uncoveredSites : List (String × String × String × Nat) :=
   Gen.setSites.filter fun s => classify s == some .unproven || classify s == none
 
 def handle (line : String) : String :=
@@ -53,7 +53,7 @@ def handle (line : String) : String :=
       " ".intercalate ((sortVars (fun x => drop.contains x) row).map toString)
     | _, _ => "bad-op"
   | some (.list [.atom "uncovered"]) =>
-    "; ".intercalate (uncoveredSites.map fun (f, fn, k) => s!"{f}:{fn}:{k}")
+    "; ".intercalate (uncoveredSites.map fun (f, fn, k, n) => s!"{f}:{fn}:{k}:{n}")
   | _ => "bad-op"
 
 def main : IO Unit := do lineLoop (← IO.getStdin) handle
